@@ -337,6 +337,48 @@ Proof.
   rewrite !m_get_entries_fresh by auto. unfold has_key. cbn [fst]. rewrite str_eqb_refl. reflexivity.
 Qed.
 
+(* ------------------------------------------------------------------------------------ *)
+(* maps built by successive inserts: [last_wins] changes nothing when the rendered keys are
+   pairwise distinct (every object produced by to_value / serde_json) *)
+
+Lemma key_eqb_key_str a b : key_eqb a b = true ->
+  exists s, key_str a = Some s /\ key_str b = Some s.
+Proof.
+  destruct a, b; cbn [key_eqb key_str]; intros H; try discriminate.
+  - apply Z.eqb_eq in H. subst. eauto.
+  - apply N.eqb_eq in H. subst. eauto.
+  - apply str_eqb_spec in H. subst. eauto.
+  - apply str_eqb_spec in H. subst. eauto.
+Qed.
+
+Lemma mem_keys_of k x s : forall l : list (tsd * tsd), In (k, x) l -> key_str k = Some s -> mem_str s (keys_of l) = true.
+Proof.
+  induction l as [|[k' x'] l IH]; intros Hin Hs; [destruct Hin|].
+  cbn [keys_of]. destruct Hin as [Heq|Hin].
+  - inversion Heq; subst. rewrite Hs. cbn [mem_str]. rewrite str_eqb_refl. reflexivity.
+  - destruct (key_str k'); [cbn [mem_str]; rewrite (IH Hin Hs); apply orb_true_r|exact (IH Hin Hs)].
+Qed.
+
+Lemma last_wins_nodup : forall l, nodup_str (keys_of l) = true -> last_wins l = l.
+Proof.
+  induction l as [|[k x] l IH]; intros H; [reflexivity|].
+  cbn [last_wins fst]. cbn [keys_of] in H.
+  assert (Hl : nodup_str (keys_of l) = true).
+  { destruct (key_str k); [cbn [nodup_str] in H; apply andb_true_iff in H; tauto|exact H]. }
+  destruct (existsb (fun e : tsd * tsd => key_eqb k (fst e)) l) eqn:Ex.
+  - exfalso. apply existsb_exists in Ex. destruct Ex as ([k' x'] & Hin & Heq). cbn [fst] in Heq.
+    destruct (key_eqb_key_str _ _ Heq) as (s & Hs & Hs').
+    rewrite Hs in H. cbn [nodup_str] in H. apply andb_true_iff in H. destruct H as [H _].
+    rewrite (mem_keys_of k' x' s l Hin Hs') in H. discriminate.
+  - rewrite (IH Hl). reflexivity.
+Qed.
+
+Lemma keys_of_map_snd (g : tsd -> tsd) : forall l : list (tsd * tsd),
+  keys_of (map (fun kv => (fst kv, g (snd kv))) l) = keys_of l.
+Proof.
+  induction l as [|[k x] l IH]; [reflexivity|]. cbn [map keys_of fst snd]. rewrite IH. reflexivity.
+Qed.
+
 (* uniform fuel for a list *)
 Lemma forall_fuel {A} (Q : nat -> A -> Prop) (l : list A) :
   Forall (fun x => exists n, forall fuel, (n <= fuel)%nat -> Q fuel x) l ->
